@@ -20,6 +20,11 @@ def _c02(run, drv, rng, tier):
     props_wire.check_c02(run, drv, rng, n, k)
 
 
+def _c05(run, drv, rng, tier):
+    n, k = {"quick": (60, 3), "thorough": (1500, 6)}[tier]
+    props_wire.check_c05(run, drv, rng, n, k)
+
+
 PY_ASSUME = [
     "CPython semantics used by bp.py and the generated code (unbounded ints, bytearray range check, dataclasses, IntEnum) are as modelled in Model/PyRt.lean",
     "the accessor layer (DataIndexer / bp_get_byte / bp_set_byte dispatch) is abstracted to 'the leaf at the path'; it is tied by executing the real generated code",
@@ -41,5 +46,33 @@ PROPS = {
                 "schema is compiled by the real compiler and executed; a case is non-trivial/distinct by its "
                 "(leaf kind, width, stream offset mod 8) triples",
         "assumptions": PY_ASSUME,
+    },
+    "C02": {
+        "modules": ["BpModel.Props.C02"],
+        "theorems": [
+            "Bp.C02.C02_roundtrip_partial", "Bp.C02.C02_spec_roundtrip", "Bp.C02.C02_signed_leaf",
+            "Bp.C02.C02_signed_value", "Bp.C02.C02_casts_tied", "Bp.C02.KF_py_enum_default_witness",
+        ],
+        "explore": _c02,
+        "correspondence": "py.decode vs generated decode()",
+        "rule": "as C01, plus decode into a fresh message and re-encode; cases hitting KF-py-enum-default are "
+                "attributed to the known finding only if the observed value equals the encoded value OR-ed with "
+                "the enum's first member at every enum leaf",
+        "assumptions": PY_ASSUME,
+    },
+    "C05": {
+        "modules": ["BpModel.Props.C05"],
+        "theorems": [
+            "Bp.C05.C05_spec", "Bp.C05.C05_py", "Bp.C05.C05_cursor", "Bp.C05.C05_chain", "Bp.C05.C05_refl",
+            "Bp.C05.C05_step_append", "Bp.C05.C05_step_grow", "Bp.C05.KF_array_skip_old_formula_witness",
+        ],
+        "explore": _c05,
+        "correspondence": "py.decode (older schema) vs generated decode() on newer bytes",
+        "rule": "newest schema generated, older versions derived by dropping highest-numbered fields of extensible "
+                "messages / shrinking extensible arrays at any depth (chains of 1-3 steps); newest value encoded by "
+                "the real newest module, decoded by every older real module, compared with the projection; "
+                "non-trivial = pair whose types really differ, distinct by (old shape, new shape)",
+        "assumptions": PY_ASSUME + ["C runtime: tied by execution only in this check until the CRt model covers messages (see C03)",
+                                    "Go runtime: same formula by inspection; Go is never executed here"],
     },
 }
